@@ -216,6 +216,49 @@ def inline_new_temps(f, ref_names):
     return n_inlined
 
 
+def fmt_equiv(node):
+    """the same text built the other way: `"a%sb%r" % (x, y)`  <->  f"a{x}b{y!r}" (only %s / %r fields, no widths, no
+    literal per cent signs or braces); None when the expression is not of that plain kind"""
+    import re as _re
+    if isinstance(node, ast.BinOp) and isinstance(node.op, ast.Mod) and isinstance(node.left, ast.Constant) and isinstance(node.left.value, str):
+        fmt = node.left.value
+        if '{' in fmt or '}' in fmt or '%%' in fmt:
+            return None
+        parts = _re.split(r'(%[sr])', fmt)
+        if any('%' in p_ for p_ in parts[0::2]):
+            return None
+        args = list(node.right.elts) if isinstance(node.right, ast.Tuple) else [node.right]
+        if len(args) != len(parts[1::2]) or isinstance(node.right, (ast.Dict, ast.Starred)) or not parts[1::2]:
+            return None
+        vals, k = [], 0
+        for i, p_ in enumerate(parts):
+            if i % 2 == 0:
+                if p_:
+                    vals.append(ast.Constant(value=p_))
+            else:
+                vals.append(ast.FormattedValue(value=args[k], conversion=114 if p_ == '%r' else -1, format_spec=None))
+                k += 1
+        return ast.JoinedStr(values=vals)
+    if isinstance(node, ast.JoinedStr):
+        fmt, args = '', []
+        for v in node.values:
+            if isinstance(v, ast.Constant) and isinstance(v.value, str):
+                if '%' in v.value:
+                    return None
+                fmt += v.value
+            elif isinstance(v, ast.FormattedValue) and v.format_spec is None and v.conversion in (-1, 114) \
+                    and not isinstance(v.value, (ast.Tuple, ast.Dict)):
+                fmt += '%r' if v.conversion == 114 else '%s'
+                args.append(v.value)
+            else:
+                return None
+        if not args:
+            return None
+        return ast.BinOp(left=ast.Constant(value=fmt), op=ast.Mod(), right=ast.Tuple(elts=args, ctx=ast.Load()) if len(args) > 1 else
+                         (args[0] if not isinstance(args[0], ast.Tuple) else ast.Tuple(elts=[args[0]], ctx=ast.Load())))
+    return None
+
+
 _SWAP = {ast.Eq: ast.Eq, ast.NotEq: ast.NotEq, ast.Lt: ast.Gt, ast.Gt: ast.Lt, ast.LtE: ast.GtE, ast.GtE: ast.LtE}
 
 
@@ -240,7 +283,51 @@ def shape_of(f):
     tests of its if/else statements"""
     cmps = sorted(ast.unparse(x) for x in ast.walk(f) if isinstance(x, ast.Compare) and len(x.ops) == 1 and type(x.ops[0]) in _SWAP)
     ifs = sorted(_if_key(x.test, x.body) for x in ast.walk(f) if plain_if_else(x))
-    return {'cmp': cmps, 'if': ifs}
+    fmts = sorted(ast.unparse(x) for x in ast.walk(f) if fmt_equiv(x) is not None)
+    return {'cmp': cmps, 'if': ifs, 'fmt': fmts}
+
+
+class _FmtBack(ast.NodeTransformer):
+    def __init__(self, ref, cur):
+        self.ref, self.cur, self.n = ref, cur, 0
+
+    def _maybe(self, node):
+        alt = fmt_equiv(node)
+        if alt is None:
+            return node
+        t = ast.unparse(node)
+        if self.cur[t] <= self.ref[t]:
+            return node
+        ta = ast.unparse(alt)
+        if self.cur[ta] < self.ref[ta]:
+            self.cur[t] -= 1
+            self.cur[ta] += 1
+            self.n += 1
+            return ast.copy_location(alt, node)
+        return node
+
+    def visit_BinOp(self, node):
+        self.generic_visit(node)
+        return self._maybe(node) if isinstance(node.op, ast.Mod) else node
+
+    def visit_JoinedStr(self, node):
+        self.generic_visit(node)
+        return self._maybe(node)
+
+
+def format_back(f, want):
+    """Undo a change of string-formatting style: an f-string for the reference's `"...%s" % (x,)` or the other way
+    round (only plain %s / %r fields), when the current form is in surplus and the reference's form is missing."""
+    if not want or os.environ.get('VERIF_NO_ORIENT'):
+        return 0
+    from collections import Counter
+    ref = Counter(want.get('fmt', []))
+    cur = Counter(ast.unparse(x) for x in ast.walk(f) if fmt_equiv(x) is not None)
+    tr = _FmtBack(ref, cur)
+    tr.generic_visit(f)
+    if tr.n:
+        ast.fix_missing_locations(f)
+    return tr.n
 
 
 def orient_back(f, want):
@@ -427,6 +514,9 @@ def canonicalise(module_name, tree):
         if want is None:
             continue
         # (turning an if/else round changes the order in which locals are first bound: undo that before names are compared)
+        kf = format_back(f, shapes().get(module_name, {}).get(qual))
+        if kf:
+            notes.append('%s.%s: %d string format(s) turned back to the reference style' % (module_name, qual, kf))
         k0 = 0
         for _ in range(8):      # (an outer if/else is recognised by what it guards: inner ones first, then again)
             kk = orient_back(f, shapes().get(module_name, {}).get(qual))
